@@ -6,15 +6,12 @@ import Fpy.Proof.EncEF2
 namespace Fpy
 open Fpy.Enc Fpy.Spec
 
-/-- **encode ∘ decode**: every pattern is the encoding of what it decodes to, up to NaN payloads.
-Finite patterns: always.  ±∞ and NaN patterns: when the code considers them representable
-(`has_nonzero`, F15) and, for ±∞, outside MAX_VAL with a one-bit significand (F16). -/
+/-- **encode ∘ decode**: every pattern is the encoding of what it decodes to, up to NaN payloads
+(a NaN pattern encodes to some NaN pattern) -/
 theorem ef_encode_decode (f : EF) (hv : f.valid = true) (b : Nat) (hb : b < 2 ^ f.nbits) :
     ∃ v, f.decode b = .ok v ∧
-      (v.isNar = false → f.encode v = .ok b) ∧
-      (v.isInf = true → f.hasNonzero = true → ¬ (f.kind = .maxVal ∧ f.pmax = 1) → f.encode v = .ok b) ∧
-      (v.isNan = true → f.hasNonzero = true →
-        ∃ b' t, f.encode v = .ok b' ∧ b' < 2 ^ f.nbits ∧ f.decode b' = .ok (.nan t)) := by
+      (v.isNan = false → f.encode v = .ok b) ∧
+      (v.isNan = true → ∃ b' t, f.encode v = .ok b' ∧ b' < 2 ^ f.nbits ∧ f.decode b' = .ok (.nan t)) := by
   have ⟨hn, _⟩ := ef_valid_basic f hv
   have hH := two_pow_pos' (f.nbits - 1)
   have hN := two_pow_pred f.nbits hn
@@ -23,20 +20,14 @@ theorem ef_encode_decode (f : EF) (hv : f.valid = true) (b : Nat) (hb : b < 2 ^ 
   have hS : b / 2 ^ (f.nbits - 1) ≤ 1 := by
     have : b / 2 ^ (f.nbits - 1) < 2 := (Nat.div_lt_iff_lt_mul hH).2 (by omega)
     omega
-  obtain ⟨v, hdv, _, hrs⟩ := ef_decode_repr f hv b hb
-  refine ⟨v, hdv, ?_, ?_, ?_⟩
-  · intro hfin
+  obtain ⟨v, hdv, hr⟩ := ef_decode_repr f hv b hb
+  refine ⟨v, hdv, ?_, ?_⟩
+  · intro hnn
     cases v with
     | fin x => exact ef_encode_decode_fin f hv b hb x hdv
-    | inf s => simp [FV.isNar] at hfin
-    | nan s => simp [FV.isNar] at hfin
-  · intro hinf hnz h16
-    cases v with
-    | fin x => simp [FV.isInf] at hinf
-    | nan s => simp [FV.isInf] at hinf
+    | nan s => simp [FV.isNan] at hnn
     | inf s =>
-      have hr : f.repr (.inf s) = true := by rw [hrs rfl]; exact hnz
-      have ⟨hlt, henc⟩ := ef_encode_inf f hv s hr h16
+      have ⟨hlt, henc⟩ := ef_encode_inf f hv s hr
       rw [henc]
       rw [ef_decode_class f hv b hb] at hdv
       generalize b / 2 ^ (f.nbits - 1) = S at *
@@ -53,27 +44,11 @@ theorem ef_encode_decode (f : EF) (hv : f.valid = true) (b : Nat) (hb : b < 2 ^ 
             have : S = 0 ∨ S = 1 := by omega
             rcases this with h | h <;> subst h <;> simp
           · cases hdv
-  · intro hnan hnz
+  · intro hnan
     cases v with
     | fin x => simp [FV.isNan] at hnan
     | inf s => simp [FV.isNan] at hnan
-    | nan s =>
-      have hr : f.repr (.nan s) = true := by rw [hrs rfl]; exact hnz
-      refine ef_encode_nan f hv s hr ?_
-      intro ⟨hk, hs⟩
-      -- a decoded NaN of a NEG_ZERO format has its sign bit set
-      rw [ef_decode_class f hv b hb] at hdv
-      generalize b / 2 ^ (f.nbits - 1) = S at *
-      generalize b % 2 ^ (f.nbits - 1) = G at *
-      injection hdv with hdv
-      split at hdv
-      · rename_i hz
-        injection hdv with hdv
-        rw [← hdv] at hs; simp [hz.2.2] at hs
-      · rcases ef_negzero_no_nan f hv hk G hGlt with h | h
-        · rw [if_pos h] at hdv; cases hdv
-        · have : ¬ G ≤ efGmax f := by omega
-          rw [if_neg this, if_pos h] at hdv; cases hdv
+    | nan s => exact ef_encode_nan f hv s hr
 
 /-- **`encode` stays in range** for every value it accepts, in every valid format -/
 theorem ef_encode_lt (f : EF) (hv : f.valid = true) (v : FV) (b : Nat) (h : f.encode v = .ok b) :
@@ -89,6 +64,11 @@ theorem ef_encode_lt (f : EF) (hv : f.valid = true) (v : FV) (b : Nat) (h : f.en
     · simp [hr] at h
   have hsb : ∀ s : Bool, 2 ^ (f.nbits - 1) * (if s then 1 else 0) < 2 ^ f.nbits := by
     intro s; cases s <;> simp <;> omega
+  have hsg : 2 ^ (f.nbits - 1) * f.encodeSign v < 2 ^ f.nbits := by
+    have : f.encodeSign v ≤ 1 := by
+      unfold EF.encodeSign; split <;> (try split) <;> (try split) <;> omega
+    have h2 : f.encodeSign v = 0 ∨ f.encodeSign v = 1 := by omega
+    rcases h2 with h2 | h2 <;> rw [h2] <;> omega
   -- generic bound from the fields
   have generic : ∀ e mb, f.encodeFields v = .ok (e, mb) → e ≤ 2 ^ f.es - 1 → mb ≤ 2 ^ f.m → b < 2 ^ f.nbits := by
     intro e mb hf he hmb
@@ -97,7 +77,7 @@ theorem ef_encode_lt (f : EF) (hv : f.valid = true) (v : FV) (b : Nat) (h : f.en
     have h1 : 2 ^ f.m * e < 2 ^ f.nbits := by
       have := Nat.mul_le_mul_left (2 ^ f.m) he
       omega
-    exact Nat.or_lt_two_pow (Nat.or_lt_two_pow (hsb _) h1) (by omega)
+    exact Nat.or_lt_two_pow (Nat.or_lt_two_pow hsg h1) (by omega)
   cases v with
   | fin x =>
     by_cases hc : x.c = 0
@@ -111,7 +91,7 @@ theorem ef_encode_lt (f : EF) (hv : f.valid = true) (v : FV) (b : Nat) (h : f.en
     cases hk : f.kind
     · exact generic (bitmask f.es) 0 (by unfold EF.encodeFields; simp only [hk]) (by unfold bitmask; omega) (by omega)
     · by_cases hp1 : f.pmax = 1
-      · exact generic (bitmask f.es - 1) 1 (by unfold EF.encodeFields; simp only [hk, hp1, if_true]) (by unfold bitmask; omega) hA1
+      · exact generic (bitmask f.es - 1) 0 (by unfold EF.encodeFields; simp only [hk, hp1, if_true]) (by unfold bitmask; omega) (by omega)
       · exact generic (bitmask f.es) (bitmask f.m - 1) (by unfold EF.encodeFields; simp only [hk, hp1, if_false])
           (by unfold bitmask; omega) (by unfold bitmask; omega)
     · exact generic (bitmask f.es) (bitmask f.m) (by unfold EF.encodeFields; simp only [hk]) (by unfold bitmask; omega) (by unfold bitmask; omega)
